@@ -442,7 +442,7 @@ type Derived struct {
 	BodyFails              bool
 	MimeTab                [][2]string // mime.TypeByExtension on every extension in the tree and the request path
 	Sniffed                string      // http.DetectContentType of the addressed file
-	WriteLimit             int         // > 0: no file can grow beyond that many bytes (RLIMIT_FSIZE) while the request is served; -1: the sandbox was changed by someone else while the body was read (Race)
+	WriteLimit             int         // > 0: no file can grow beyond that many bytes (RLIMIT_FSIZE) while the request is served; -1: the sandbox was changed by someone else while the body was read (Race); -2: os.Rename is refused while the request is served (rfault stage)
 	RaceBefore             *Node       // Race: the tree before, with the other party's change applied
 	TagsBefore, TagsAfter  [][2]string // (resource name, entity tag LocalFileSystem.Stat reports) for every stored file before the request, and for the target of a PUT after it: the specification takes the announced tags from here, whatever they look like
 }
